@@ -85,7 +85,7 @@ Qed.
 
 (* the scan of a return type over the rest of a parenthesis group after a ")" at this depth (no brace group
    follows at this depth), closed by ")" or ";", fails *)
-Lemma ubt_bfalse ok r : binner ok r -> ok = false -> forall B, hd_ok closer B -> until_brace_type (r ++ B) 0 = false.
+Lemma ubt_bfalse ok r : binner ok r -> ok = BPoison -> forall B, hd_ok closer B -> until_brace_type (r ++ B) 0 = false.
 Proof.
   induction 1 as [ok|ok t r Ht Hr IH|ok o g c r Ho Hg IHg Hc Hr IHr|o flat c r Ho Hflat Hc Hr IH]; intros Hok B HB.
   - cbn [app]. destruct B as [|b B]; [reflexivity|]. cbn [hd_ok] in HB.
@@ -95,10 +95,10 @@ Proof.
     unfold is_lbrace in H3. rewrite H3.
     destruct (pystr_eqb (t_value t) lbrace || pystr_eqb (t_value t) s_semi
               || pystr_eqb (t_value t) lparen || pystr_eqb (t_value t) rparen); [reflexivity|].
-    apply IH; assumption.
+    apply IH; [subst ok; reflexivity | exact HB].
   - replace ((o :: g ++ c :: r) ++ B) with (o :: g ++ c :: (r ++ B)) by (norm_app; reflexivity).
-    rewrite ubt_top_lparen by exact Ho. rewrite (ubt_binner_deep true g Hg 1%Z) by lia.
-    rewrite ubt_deep_rparen by (assumption || lia). replace (1 - 1)%Z with 0%Z by lia. apply IHr; [reflexivity | exact HB].
+    rewrite ubt_top_lparen by exact Ho. rewrite (ubt_binner_deep BSafe g Hg 1%Z) by lia.
+    rewrite ubt_deep_rparen by (assumption || lia). replace (1 - 1)%Z with 0%Z by lia. apply IHr; [subst ok; reflexivity | exact HB].
   - discriminate.
 Qed.
 
@@ -106,7 +106,7 @@ Lemma follow_rettype_unfold w j :
   follow_rettype w j = sym_at w j lbrace || (op_at w j s_colon && until_brace_type (skipn (S j) w) 0).
 Proof. reflexivity. Qed.
 
-Lemma rettype_bfalse ok r : binner ok r -> ok = false -> forall B, hd_ok closer B ->
+Lemma rettype_bfalse ok r : binner ok r -> aftergroup ok -> forall B, hd_ok closer B ->
   follow_rettype (r ++ B) (groups_len (r ++ B) 0) = false.
 Proof.
   induction 1 as [ok|ok t r Ht Hr IH|ok o g c r Ho Hg IHg Hc Hr IHr|o flat c r Ho Hflat Hc Hr IH]; intros Hok B HB.
@@ -116,22 +116,24 @@ Proof.
     unfold closer in HB. apply orb_prop in HB as [HB|HB]; rewrite (symbol_not_operator _ _ s_colon HB); reflexivity.
   - pose proof (plain_inv t Ht) as (H1 & _ & H3 & _). cbn [app]. rewrite groups_len_outside_stop by exact H1.
     rewrite follow_rettype_unfold. unfold sym_at, op_at. cbn [nth_error skipn]. unfold is_lbrace in H3. rewrite H3.
-    rewrite (ubt_bfalse ok r Hr Hok B HB). apply andb_false_r.
+    destruct (is_operator t s_colon) eqn:Eop; [|reflexivity].
+    rewrite (ubt_bfalse _ r Hr); [reflexivity | | exact HB].
+    destruct Hok as [-> | ->]; cbn [bstep_plain]; [rewrite Eop|]; reflexivity.
   - replace ((o :: g ++ c :: r) ++ B) with (o :: g ++ c :: (r ++ B)) by (norm_app; reflexivity).
     rewrite groups_len_outside_lparen by exact Ho.
-    rewrite (groups_len_binner true g Hg 1%Z) by lia.
+    rewrite (groups_len_binner BSafe g Hg 1%Z) by lia.
     rewrite groups_len_inside_rparen by (assumption || lia).
     replace (1 - 1)%Z with 0%Z by lia.
     replace (S (length g + S (groups_len (r ++ B) 0))) with (length (o :: g ++ [c]) + groups_len (r ++ B) 0) by (norm_len; lia).
     replace (o :: g ++ c :: r ++ B) with ((o :: g ++ [c]) ++ (r ++ B)) by (norm_app; reflexivity).
-    rewrite fshift_rettype. apply IHr; [reflexivity | exact HB].
-  - discriminate.
+    rewrite fshift_rettype. apply IHr; [apply after_group_ag | exact HB].
+  - destruct Hok; discriminate.
 Qed.
 
 Lemma isuf_rejects_rettype : isuf_rejects follow_rettype.
 Proof.
-  intros v Hv Hlp. destruct (isuf_lparen_shape v Hv Hlp) as (o & g & c & r & B & -> & Ho & Hg & Hc & Hr & HB & ->).
-  rewrite fshift_rettype. apply (rettype_bfalse false r Hr eq_refl B HB).
+  intros v Hv Hlp. destruct (isuf_lparen_shape v Hv Hlp) as (o & g & c & s & r & B & -> & Ho & Hg & Hc & Hs & Hr & HB & ->).
+  rewrite fshift_rettype. apply (rettype_bfalse s r Hr Hs B HB).
 Qed.
 
 Lemma good_function_rettype l : good l cand_function follow_rettype.
